@@ -80,8 +80,10 @@ def runLayout (c : Case) : Res :=
     let tags := [s!"n={rows.length}", s!"files={hk "files"}", s!"colperm={hk "colperm"}", s!"rowperm={hk "rowperm"}",
       s!"recase={hk "recase"}", s!"extra={hk "extra"}", s!"secs={secNames.length}", s!"out={base.status}",
       s!"tie={if ties.isEmpty then 0 else 1}", (if changed && rows.length ≥ 2 then "nt=C07" else "nt=")]
-    if base.status == "panic" || rel.status == "panic" then
-      { verdict := "DIFF", tags := "dk=panic" :: tags, msg := "implementation panicked" } else
+    -- a panic in both runs is C05's subject (same outcome for both layouts); in one run only it is
+    -- a different outcome and falls under the oracle below
+    if base.status == "panic" && rel.status == "panic" then
+      { verdict := "DIFF", tags := "dk=panic" :: tags, msg := "implementation panicked in both runs" } else
     -- ---------------- ORACLE
     let oracle : List String :=
       if base.status != rel.status then [s!"base run {base.status}, re-laid-out run {rel.status}"] else
